@@ -258,6 +258,15 @@ def guarded_impl(mod, sc, seconds=None):
         _forget_models()
 
 
+def safe_oracle(mod, sc, obs):
+    """the property oracle of the module; an oracle that cannot evaluate what a (changed) implementation returned must not
+    end the check with a traceback: an unevaluable observation is a failed clause"""
+    try:
+        return list(mod.oracle(sc, obs))
+    except Exception as e:  # noqa: BLE001
+        return [f"unevaluable: the oracle could not evaluate the implementation's observations ({type(e).__name__}: {e})"]
+
+
 def _forget_models():
     """mesa keeps every Model that ever created an agent alive for the life of the process (`Agent._ids`, a class-level dict
     keyed by the model object) and with it the model's spaces and arrays: a worker that runs thousands of scenarios grows by
@@ -433,7 +442,7 @@ def shrink_oracle(mod, lines, meta, clause_prefix):
         try:
             sc = Scenario(ls, meta)
             obs = guarded_impl(mod, sc)
-            return any(c.split(":")[0] == clause_prefix for c in mod.oracle(sc, obs))
+            return any(c.split(":")[0] == clause_prefix for c in safe_oracle(mod, sc, obs))
         except Exception:
             return False
 
@@ -558,7 +567,7 @@ def _main(ctx, args):
                 d = len(lines)
             if d is not None:
                 disagreements.append((lines, meta, obs, mo, d))
-        for clause in mod.oracle(sc, obs):
+        for clause in safe_oracle(mod, sc, obs):
             failures.append((lines, meta, obs, clause))
     for lines, meta, _, err in crashes:
         # a harness crash on a generated scenario: the implementation raised something the harness
@@ -587,7 +596,7 @@ def _main(ctx, args):
         sc = Scenario(w["scenario"], {"witness": k["id"]})
         try:
             obs = guarded_impl(mod, sc)
-            still = any(w["matches"](sc, c) for c in mod.oracle(sc, obs))
+            still = any(w["matches"](sc, c) for c in safe_oracle(mod, sc, obs))
         except Exception:
             still = True
         if still:
@@ -601,7 +610,7 @@ def _main(ctx, args):
         sc = Scenario(small, meta)
         sobs = guarded_impl(mod, sc)
         ctx.violation("impl-counterexample", {
-            "kind": "impl-counterexample", "oracle_clause": [c for c in mod.oracle(sc, sobs)] or [clause],
+            "kind": "impl-counterexample", "oracle_clause": [c for c in safe_oracle(mod, sc, sobs)] or [clause],
             "ops": small, "meta": meta, "impl_observations": sobs,
             "model_observations": model_obs_mod(mod, [sc])[0] if (drivers_of(mod) and not build_broken) else None,
             "other_failures": len(unknown_fail) - 1})
@@ -614,7 +623,7 @@ def _main(ctx, args):
                 if err:
                     continue
                 sc = Scenario(lines, meta)
-                cl = [c for c in mod.oracle(sc, obs)
+                cl = [c for c in safe_oracle(mod, sc, obs)
                       if not any(i in open_ids and k["matches"](sc, c) for i, k in KN.items())]
                 if cl:
                     found = (lines, meta, obs, cl[0])
@@ -625,7 +634,7 @@ def _main(ctx, args):
             sc = Scenario(small, meta)
             sobs = guarded_impl(mod, sc)
             ctx.violation("impl-counterexample", {
-                "kind": "impl-counterexample", "oracle_clause": mod.oracle(sc, sobs) or [clause], "ops": small,
+                "kind": "impl-counterexample", "oracle_clause": safe_oracle(mod, sc, sobs) or [clause], "ops": small,
                 "meta": meta, "impl_observations": sobs})
         else:
             payload = {"kind": "no-failing-input", "theorem_or_stream": None}
@@ -715,7 +724,7 @@ def _replay(ctx, path):
     sc = Scenario(lines, data.get("meta") or {})
     obs = guarded_impl(mod, sc)
     mo = model_obs_mod(mod, [sc])[0] if drivers_of(mod) else None
-    cl = mod.oracle(sc, obs)
+    cl = safe_oracle(mod, sc, obs)
     for i, l in enumerate(lines):
         mark = "" if mo is None or (i < len(obs) and obs[i] == mo[i]) else "   <-- differs"
         print(f"{l:40s} impl: {obs[i] if i < len(obs) else None}   model: {mo[i] if mo else None}{mark}")
